@@ -181,6 +181,11 @@ namespace
         return s.str();
     }
 
+    // operator set of the VMs: "full" (what the CLI registers, default) or "basic" (no dummy/object/group/marker operators)
+    opsset ops_of(const J& c)
+    {
+        return c.str("ops", "full") == "basic" ? opsset::basic : opsset::full;
+    }
     sqf::runtime::fileio::pathinfo path_of(const J& c, vm& v)
     {
         std::string file = c.str("file", "case.sqf");
@@ -196,7 +201,7 @@ namespace
     obs run_script(const J& c, const std::string& text, const char* script, const std::string& fe)
     {
         obs o;
-        auto v = make_vm({}, opsset::full);
+        auto v = make_vm({}, ops_of(c));
         auto& rt = *v.rt;
         auto pi = path_of(c, v);
         auto set = rt.parser_sqf().parse(rt, script, sqf::runtime::fileio::pathinfo(std::string("vd__driver.sqf"), std::string()));
@@ -236,7 +241,7 @@ namespace
         obs o;
         if (fe == "sqfparse")
         {
-            auto v = make_vm({}, opsset::full);
+            auto v = make_vm({}, ops_of(c));
             auto pi = path_of(c, v);
             auto set = v.rt->parser_sqf().parse(*v.rt, text, pi);
             o.ok = set.has_value();
@@ -261,7 +266,7 @@ namespace
         }
         if (fe == "pp")
         {
-            auto v = make_vm({}, opsset::full);
+            auto v = make_vm({}, ops_of(c));
             auto pi = path_of(c, v);
             auto res = v.rt->parser_preprocessor().preprocess(*v.rt, text, pi);
             o.ok = res.has_value();
